@@ -846,7 +846,7 @@ class BuildTarget(Target):
         self.link_whole_targets: T.List[StaticTargetTypes] = []
         self.depend_files = kwargs.get('depend_files', [])
         self.link_depends = kwargs.get('link_depends', [])
-        self.added_deps: T.Set[dependencies.Dependency] = set()
+        self.added_deps: OrderedSet[dependencies.Dependency] = OrderedSet()
         self.name_prefix_set = False
         self.name_suffix_set = False
         self.filename = 'no_name'
